@@ -447,9 +447,19 @@ def c07(ctx, res):
         if any(m in text.lower() for m in ("push", "pop", "call", "rets")):
             cases.append((text, True, "fuzz"))
 
+    # a file that is not text at all (not UTF-8, even length), under names with and without the usual
+    # extension: nothing to assemble, for any of the three
+    for ext in ("asm", "s", "txt", "none"):
+        cases.append((b"; caf\xe9 \n\xff\xfe halt\n\x80\n", "name:" + ext, "not_utf8"))
+        cases.append((b"\xe9\xe9", "name:" + ext, "not_utf8"))
+
     def one(ix):
         src, stack, tag = cases[ix]
         name = "s%d.asm" % ix
+        if isinstance(stack, str) and stack.startswith("name:"):
+            ext = stack[5:]
+            name = "s%d" % ix if ext == "none" else "s%d.%s" % (ix, ext)
+            stack = False
         _write(os.path.join(d, name), src)
         f = ["-f", "stack"] if stack else []
         if stack == "front":
@@ -467,6 +477,11 @@ def c07(ctx, res):
         res.evaluations += 1
         res.distinct += 1
         res.cls("tag:" + tag.split(":")[0])
+        if isinstance(src, bytes):
+            src = src.decode("latin-1")
+        if isinstance(stack, str) and stack.startswith("name:"):
+            res.cls("file_name:" + stack[5:])
+            stack = False
         res.cls("flag:" + ("before_subcommand" if stack == "front" else "stack" if stack else "none"))
         oc, om = outcome(chk), outcome(cmpl)
         detail = {"source": src[-1500:], "stack_flag": stack, "tag": tag, "check": chk.brief(), "compile": cmpl.brief()}
@@ -497,7 +512,7 @@ def c07(ctx, res):
         if ix % 40 == 0:
             res.samples.append({"source": src[:400], "stack_flag": stack, "check": oc, "compile": om, "run_exit": run.rc})
     res.require(["tag:emit_fail", "tag:mixed", "tag:valid", "tag:top_of_memory", "tag:stack_ext_without_flag", "flag:stack", "flag:none",
-                 "both_accept", "both_reject", "emit_fail_minimal_program", "tag:fuzz", "tag:empty_program", "tag:flag_before_subcommand"]
+                 "both_accept", "both_reject", "emit_fail_minimal_program", "tag:fuzz", "tag:empty_program", "tag:flag_before_subcommand", "tag:not_utf8", "file_name:s", "file_name:none"]
                 + ["both_reject:" + r for r in ("undefined_label", "origin_twice", "duplicate_or_bad_label", "syntax", "directive_operand",
                                                 "lexical", "operand_range", "stack_extension_off")] + ["emit_fail_form:" + f for f in ("BR", "LD", "LDI", "LEA", "ST", "STI", "JSR", "CALL")], "L2")
     # ---- watch: every re-check equals a fresh check
@@ -733,6 +748,11 @@ def c08(ctx, res):
     for e in good[:3]:
         img = b"".join(int(w).to_bytes(2, "big") for w in e["image"])
         cases.append(("ok", e["source"], e["stack"], "out.lc3", "same_size", img))
+    # sources that assemble to no word at all: the complete object is the origin word
+    for src, origin in (("", 0x3000), ("\n\n", 0x3000), ("; nothing here\n", 0x3000), (".orig x4000\n", 0x4000), (".orig x4000\r\n.end\r\n", 0x4000),
+                        (".end", 0x3000), (" \t \n", 0x3000), (".break\n", 0x3000)):
+        for pre in (True, False):
+            cases.append(("ok_no_statements", src, False, "out.lc3", pre, origin.to_bytes(2, "big")))
     # destination *names*: nothing in the property depends on how the path is spelt. '\udcff' is how
     # Python spells the byte 0xFF in a file name (surrogateescape): a name that is not valid UTF-8.
     names = [("name_spaces", "my out file.lc3"), ("name_no_extension", "out"), ("name_unicode", "caf\u00e9 \u20ac.lc3"),
@@ -802,10 +822,11 @@ def c08(ctx, res):
     # ---- strace: injected write errors on the k-th write of a successful compile
     c08_inject(ctx, res, good[:1 if not ctx.thorough() else 6], d)
     c08_fsize(ctx, res, big, d)
+    c08_fifo(ctx, res, d)
     floors = ["fault:emit_fail", "fault:ok", "fault:ok_top_of_memory", "fault:dev_full", "fault:missing_parent", "fault:dest_is_directory",
               "dest:pre-existing", "dest:absent", "success_complete", "failure_destination_untouched",
               "fault:name_not_utf8", "fault:name_long_2byte", "fault:name_long_3byte", "fault:name_long_4byte", "fault:name_long_ascii",
-              "fault:ok_big_zero_tail", "fault:ok_big_zero_middle", "dest:pre-existing-same-size", "fault:file_size_limit", "file_size_limit:object_fits"]
+              "fault:ok_big_zero_tail", "fault:ok_big_zero_middle", "dest:pre-existing-same-size", "fault:file_size_limit", "file_size_limit:object_fits", "fault:ok_no_statements", "fault:fifo_reader_goes_away"]
     res.require(floors, "L2")
     return res
 
@@ -816,6 +837,42 @@ def _snap_brief(s):
     if s[0] == "file":
         return "file %d bytes %s" % (len(s[1]), s[1][:24].hex())
     return s[0]
+
+
+def c08_fifo(ctx, res, d):
+    """The destination is a named pipe whose reader takes a few bytes (or none) and goes away: the
+    object (larger than the pipe buffer) cannot be delivered completely, so exit 0 would be a lie."""
+    import threading
+    src = "halt\nbuf .blkw #60000\n"     # 120 004 bytes, the pipe buffer holds 65 536
+    for k, take in enumerate((0, 16, 4096)):
+        cd = os.path.join(d, "fifo%d" % k)
+        os.makedirs(cd, exist_ok=True)
+        _write(os.path.join(cd, "in.asm"), src)
+        path = os.path.join(cd, "out.lc3")
+        os.mkfifo(path)
+        got = []
+
+        def reader():
+            try:
+                fd = os.open(path, os.O_RDONLY)
+                if take:
+                    got.append(os.read(fd, take))
+                os.close(fd)
+            except OSError:
+                pass
+        t = threading.Thread(target=reader, daemon=True)
+        t.start()
+        r = lace(ctx, ["compile", "in.asm", "out.lc3"], cwd=cd, timeout=60)
+        t.join(timeout=10)
+        res.evaluations += 1
+        res.cls("fault:fifo_reader_goes_away")
+        detail = dict(r.brief(), source=src, reader_took_bytes=take, object_bytes=120004)
+        if r.rc is None or r.crashed:
+            res.violate("C08/crash/fifo_reader_goes_away", "`lace compile` crashed or hung (exit %s) writing to a pipe whose reader went away" % r.rc, detail)
+        elif r.rc == 0:
+            res.violate("C08/exit-0-incomplete-file/fifo_reader_goes_away",
+                        "exit 0 although the reader of the destination pipe took %d of 120004 bytes and went away" % take, detail)
+        os.remove(path)
 
 
 def c08_fsize(ctx, res, big, d):
